@@ -204,3 +204,33 @@ func checkWrapUnit() Unit {
 		}
 	}}
 }
+
+var reSync = regexp.MustCompile(`(?m)^SYNCTEST case=(\S+) outcome=(\S+) runs=(\d+)(.*)$`)
+
+// synctestUnit: Check / MakeCheck called inside a testing/synctest bubble on a real *testing.T of a newer
+// toolchain: the promised number of test cases runs, nothing panics.
+func synctestUnit() Unit {
+	return Unit{Name: "C09/Check inside a testing/synctest bubble (toolchain go1.25+)", Run: func(c *Ctx) {
+		bin := os.Getenv("VERIF_SYNCTEST_BIN")
+		if bin == "" {
+			c.Cap("no Go 1.25+ toolchain in this environment: the synctest scenario is not run")
+			return
+		}
+		out, _ := exec.Command(bin, "-test.run", "TestSynctestCheck", "-test.v", "-rapid.nofailfile", "-rapid.checks=20", "-rapid.seed=7").CombinedOutput()
+		ms := reSync.FindAllStringSubmatch(string(out), -1)
+		if len(ms) < 2 {
+			c.R.HarnessErr = "synctest binary printed fewer than 2 result lines: " + trunc(string(out), 600)
+			return
+		}
+		for _, m := range ms {
+			c.R.Evals++
+			c.R.States++
+			c.R.Transitions++
+			c.Outcome(m[0], true)
+			if m[2] != "returned" || m[3] != "20" || strings.Contains(m[4], "failed=true") {
+				c.Violate(Violation{Sig: "C09 check-inside-synctest-bubble case=" + m[1] + " outcome=" + m[2], Detail: "a never-falsified property with -rapid.checks=20 inside synctest.Test on a go1.26 *testing.T: " + m[0],
+					Replay: map[string]any{"engine": "synctest", "case": m[1]}})
+			}
+		}
+	}}
+}
